@@ -23,7 +23,8 @@ import (
 	"time"
 
 	"github.com/xelaj/mtproto/internal/encoding/tl"
-	_ "github.com/xelaj/mtproto/internal/mtproto/objects"
+	"github.com/xelaj/mtproto/internal/mtproto/messages"
+	"github.com/xelaj/mtproto/internal/mtproto/objects"
 	_ "github.com/xelaj/mtproto/telegram"
 	"github.com/xelaj/mtproto/verifharness/tlh"
 	vc "verifcommon"
@@ -257,6 +258,53 @@ func (w *caseWriter) enc(s *tlh.Struct, pv reflect.Value, kind string) (encRes, 
 	w.stat["E:class:"+r1.class]++
 	w.out.Line("E", w.id(), strconv.Itoa(s.Tid), g, r1.String(), det, rt)
 	return r1, true
+}
+
+// E-case for the custom-marshalled container (tid column "c"): round trip by id and by name
+func (w *caseWriter) encContainer(c *objects.MessageContainer) {
+	g := u.Abs(reflect.ValueOf(c))
+	if w.seen["E"+g] {
+		return
+	}
+	w.seen["E"+g] = true
+	r1 := marshal(c)
+	r2 := marshal(c)
+	det := "1"
+	if r1.class != r2.class || !bytes.Equal(r1.data, r2.data) {
+		det = "0"
+	}
+	rt := "na"
+	if r1.class == "ok" {
+		rt = "ok"
+		p, val := vc.Catch(func() {
+			o, err := tl.DecodeUnknownObject(r1.data)
+			if err != nil {
+				rt = "fail:unknown-decode-error:" + vc.HexS(err.Error())
+				return
+			}
+			if u.Abs(reflect.ValueOf(o)) != g {
+				rt = "fail:unknown-decode-differs"
+				return
+			}
+			var c2 objects.MessageContainer
+			if err := tl.Decode(r1.data, &c2); err != nil {
+				rt = "fail:named-decode-error:" + vc.HexS(err.Error())
+				return
+			}
+			if u.Abs(reflect.ValueOf(&c2)) != g {
+				rt = "fail:named-decode-differs"
+			}
+		})
+		if p {
+			rt = "fail:panic:" + vc.HexS(fmt.Sprint(val))
+		}
+	}
+	w.stat["E:container"]++
+	w.stat["E:class:"+r1.class]++
+	w.out.Line("E", w.id(), "c", g, r1.String(), det, rt)
+	if r1.class == "ok" {
+		w.decU(r1.data, nil, "roundtrip")
+	}
 }
 
 func ftyHints(h []reflect.Type) string {
@@ -516,6 +564,19 @@ func cases(tier, path string) {
 		for k := 0; k < randomPer; k++ {
 			emit(g.Struct(s, depth, nil), "random")
 		}
+	}
+	// msg_container: hand-written Marshaler/Unmarshaler
+	for k := 0; k < 12; k++ {
+		n := []int{0, 1, 2, 3, 5}[g.R.Intn(5)]
+		c := make(objects.MessageContainer, n)
+		for i := range c {
+			body := g.R.Bytes(4 * g.R.Intn(6))
+			if g.R.Intn(3) == 0 {
+				body = le32(0x997275b5)
+			}
+			c[i] = &messages.Encrypted{MsgID: int64(g.R.U64()), SeqNo: int32(g.R.Intn(1 << 20)), Msg: body}
+		}
+		w.encContainer(&c)
 	}
 	// every enum member through the unknown-object entry (bare id on the wire)
 	for _, e := range u.Enums {
